@@ -258,7 +258,7 @@ PROP = Property(
           "the same PID); distinct = event-kind signature."),
     strategy=strategy,
     run_case=run_case,
-    budgets={"quick": 20000, "thorough": 2000000},
+    budgets={"quick": 20000, "thorough": 200000},
     assumptions=[
         "a PID reused within the same clock tick is not generated",
         "objects are created only for listed PIDs (the born-gone Popen path is C01's)",
